@@ -1721,7 +1721,7 @@ pub fn run(ctx: &mut Ctx) -> &'static str {
     }
 
     // ---- generated: generate_route_output -------------------------------------------------------
-    let n_route = ctx.n(120, 2500);
+    let n_route = ctx.n(120, 6000);
     for k in 0..n_route {
         // the same route and table through all five formats
         let mut base = Rng::for_case(ctx.seed, 20, 1_000_000 + k as u64);
@@ -1750,7 +1750,7 @@ pub fn run(ctx: &mut Ctx) -> &'static str {
         }
     }
     // ---- generated: generate_tree_output --------------------------------------------------------
-    let n_tree = ctx.n(80, 1500);
+    let n_tree = ctx.n(80, 4000);
     for k in 0..n_tree {
         let mut base = Rng::for_case(ctx.seed, 20, 2_000_000 + k as u64);
         let n_rows = 1 + base.below(30);
@@ -1769,7 +1769,7 @@ pub fn run(ctx: &mut Ctx) -> &'static str {
         }
     }
     // ---- generated: traversal_ops ---------------------------------------------------------------
-    let n_ops = ctx.n(120, 2000);
+    let n_ops = ctx.n(120, 5000);
     for _ in 0..n_ops {
         let Some(idx) = ctx.begin() else { continue };
         let mut rng = Rng::for_case(ctx.seed, 20, idx as u64);
@@ -1784,7 +1784,7 @@ pub fn run(ctx: &mut Ctx) -> &'static str {
         ops_case(ctx, idx, &table, &route, &tree);
     }
     // ---- generated: UUIDOutputPlugin::process ---------------------------------------------------
-    let n_uuid = ctx.n(200, 3000);
+    let n_uuid = ctx.n(200, 8000);
     for _ in 0..n_uuid {
         let Some(idx) = ctx.begin() else { continue };
         let mut rng = Rng::for_case(ctx.seed, 20, idx as u64);
@@ -1795,7 +1795,7 @@ pub fn run(ctx: &mut Ctx) -> &'static str {
         uuid_case(ctx, idx, &dir, search_ok, &table, &output);
     }
     // ---- generated: apply_output_processing with real plugins -----------------------------------
-    let n_resp = ctx.n(150, 2500);
+    let n_resp = ctx.n(150, 6000);
     for _ in 0..n_resp {
         let Some(idx) = ctx.begin() else { continue };
         let mut rng = Rng::for_case(ctx.seed, 20, idx as u64);
@@ -1851,7 +1851,7 @@ pub fn run(ctx: &mut Ctx) -> &'static str {
         resp_case(ctx, idx, &dir, &app, search_ok, &req, &plugins, &routes, &trees, None, false);
     }
     // ---- generated: real searches, plugins built through the configuration builders --------------
-    let n_e2e = ctx.n(150, 3000);
+    let n_e2e = ctx.n(150, 8000);
     for _ in 0..n_e2e {
         let Some(idx) = ctx.begin() else { continue };
         let mut rng = Rng::for_case(ctx.seed, 20, idx as u64);
